@@ -311,7 +311,8 @@ def check(ctx):
     if pva is None:
         r5.bad(V(r5.id, "<anchor>", "missing:parse_validator_attributes", "anchor not found"))
     else:
-        loops = [e for e in walk_block(pva.body) if e.get("k") == "for" and re.search(r"\battrs\b", expr_text(e["iter"]))]
+        from srclib import attribute_loops
+        loops = attribute_loops(pva)
         if not loops:
             r5.bad(V(r5.id, "ValidatorParser::parse_validator_attributes", "no-attribute-loop", "no loop over the attributes found"))
         for lp in loops:
